@@ -283,13 +283,17 @@ impl<L: Localize> OpeningHours<L> {
     /// assert_eq!(oh.state(date_2), RuleKind::Unknown);
     /// ```
     pub fn state(&self, current_time: L::DateTime) -> RuleKind {
+        let naive_time = self.ctx.locale.naive(current_time);
+
         // Nothing is ever open past the supported range, and adding a minute to the largest
         // representable dates would overflow.
-        if self.ctx.locale.naive(current_time.clone()) >= DATE_END {
+        if naive_time >= DATE_END {
             return RuleKind::Closed;
         }
 
-        self.iter_range(current_time.clone(), current_time + Duration::minutes(1))
+        // The minute is added to the local time: added to the input instead, it could step over
+        // a time zone transition and leave an empty window.
+        self.iter_range_naive(naive_time, naive_time + Duration::minutes(1))
             .next()
             .map(|dtr| dtr.kind)
             .unwrap_or(RuleKind::Closed)
